@@ -115,7 +115,7 @@ def build(f, bi, slot, prefix, loc, uid):
 def universal(out, files, tree, root_rel):
     probs = []
     for sev, kind, spans in out.reports:
-        for (fa, pa, fb, pb, n, code) in spans:
+        for (fa, pa, fb, pb, n, code, _ra, _rb) in spans:
             if fa != fb:
                 probs.append(("span-two-files", "%s: span starts in %s and ends in %s" % (kind, fa, fb)))
                 continue
